@@ -17,11 +17,14 @@ class NotCovered(Exception):
 class St:
     # sk: token indices skipped EAGERLY (at a parse start) since the last delivery - an advance-only lexer still stands in
     # front of them, so a filter change that makes one of them deliverable exposes the recorded C05 finding
-    __slots__ = ('i', 'flt', 'fresh', 'sk')
-    def __init__(self, i, flt, fresh, sk=frozenset()):
-        self.i, self.flt, self.fresh, self.sk = i, flt, fresh, sk
+    # buf: is a look-ahead token buffered? True / False, or None when the reference does not know (behind combinators whose
+    # look-ahead behaviour it does not follow: lists, brackets, recovery). A sub-parse mark skips the filtered tokens in front
+    # of it only when NO look-ahead is buffered (lexer.rs buffer_next returns at once otherwise).
+    __slots__ = ('i', 'flt', 'fresh', 'sk', 'buf')
+    def __init__(self, i, flt, fresh, sk=frozenset(), buf=None):
+        self.i, self.flt, self.fresh, self.sk, self.buf = i, flt, fresh, sk, buf
     def copy(self):
-        return St(self.i, self.flt, self.fresh, self.sk)
+        return St(self.i, self.flt, self.fresh, self.sk, self.buf)
 
 class Peg:
     def __init__(self, toks, complete, sink=False, sub_skip=True):
@@ -34,6 +37,7 @@ class Peg:
         self.stale = set()          # recover_after objects whose recovery token ended the stream (known finding)
         self.known = None
         self.lost_met = False       # a filter change made an eagerly skipped token deliverable again (it stays lost)
+        self.unknown_used = False   # a sub-parse mark was met with an unknown look-ahead state (sub_skip decided)
         self.last_consumed = None
 
     def complete_tail_ok(self):
@@ -60,6 +64,7 @@ class Peg:
             raise Fail('end')
         s.i = j + 1
         s.fresh = False
+        s.buf = False
         s.sk = frozenset()
         self.last_consumed = j
         return self.toks[j], j
@@ -71,11 +76,21 @@ class Peg:
                 out.append(self.toks[j]['tok'])
             j += 1
         return out
+    def peeked(self, s):
+        """Lexer::peek / buffer_next: nothing happens when a look-ahead is buffered; otherwise the eager skip (at a parse
+        start) and the next deliverable token, if any, is buffered"""
+        if s.buf:
+            return
+        if s.buf is None and s.fresh:
+            self.unknown_used = True
+        self.norm(s)
+        s.buf = self.first(s) is not None
     def set_filter(self, s, f):
         if any(lexsim.keeps(f, self.toks[k]['kind']) for k in s.sk):
             self.lost_met = True
         s.flt = f
-        self.norm(s)
+        s.buf = False               # set_filter drops the look-ahead, then buffers again under the new filter
+        self.peeked(s)
 
     # ---- evaluation: returns (value, state); raises Fail ----
     def ev_nosink(self, g, s):
@@ -91,6 +106,7 @@ class Peg:
             return 'unit', s
         if g == 'eot':
             if self.first(s) is None and self.complete:
+                s = s.copy(); self.peeked(s)        # end_of_text looks ahead (eager skip at a parse start)
                 return 'unit', s
             raise Fail('eot')
         if g == 'userfail':
@@ -117,8 +133,11 @@ class Peg:
                 j = self.first(s)
                 if j is None:
                     if not self.complete: raise Fail('unrecognized')
+                    self.peeked(s)
                     break
-                if self.toks[j]['kind'] != kk: break
+                if self.toks[j]['kind'] != kk:
+                    self.peeked(s)          # seq_count looks at the mismatching token and leaves it buffered
+                    break
                 self.take(s); n += 1
             return ['nat', str(n)], s
         if k == 'pred':
@@ -143,8 +162,15 @@ class Peg:
             _, s1 = self.ev(g[1], s); return 'unit', s1
         if k == 'sub':
             s = s.copy()
-            if self.sub_skip:
-                s.fresh = True; self.norm(s)
+            if s.buf is None:
+                # unknown look-ahead state: the caller's reading decides (and is told)
+                self.unknown_used = True
+                if self.sub_skip:
+                    s.fresh = True; self.norm(s)
+            elif s.buf:
+                s.fresh = True              # start_sublex with a look-ahead buffered: a parse start, nothing skipped
+            else:
+                s.fresh = True; self.norm(s); s.buf = self.first(s) is not None
             return self.ev(g[1], s)
         if k == 'either':
             try:
@@ -200,6 +226,7 @@ class Peg:
             return 'unit', s
         # ---- captures (C14): span / text of the tokens the wrapped parser consumed ----
         if k in ('text', 'spanned'):
+            s = s.copy(); self.peeked(s)        # the capture looks ahead for its start before the wrapped parser runs
             v, s1 = self.ev(g[1], s)
             cons = self.deliverable(s, s.i, s1.i)
             if cons:
@@ -269,6 +296,7 @@ class Peg:
                         # (tokens the current filter hides between that token and the recovery token are not consumed - they
                         # reappear if an enclosing filter_with / unfiltered restores a wider filter)
                         s2 = s.copy() if prev is None else St(prev + 1, s.flt, False)
+                        s2.buf = None
                         return (['none'] if k in ('recover', 'recoverdelayed') else 'dflt'), s2
                     # after: the next token is the one following the recovery token; there must be one
                     s2 = St(j + 1, s.flt, False)
@@ -412,6 +440,7 @@ def reference(text, le, tab, scanner, flt, g, sink=False, runs=1, sub_skip=True)
     p = Peg(toks, complete, sink, sub_skip)
     s = St(0, flt, True)
     p.norm(s)
+    s.buf = p.first(s) is not None          # Lexer::new(..).with_filter(..): set_filter + buffer_next
     out = []
     for _ in range(runs):
         try:
@@ -424,5 +453,6 @@ def reference(text, le, tab, scanner, flt, g, sink=False, runs=1, sub_skip=True)
         s = s1
     reference.known = p.known
     reference.lost_met = p.lost_met
+    reference.unknown_used = p.unknown_used
     reference.list_bounds = getattr(p, 'list_bounds', [])
     return out
